@@ -412,7 +412,7 @@ func (a *Analyzer) buildElementTree(result *AnalysisResult) []LayoutElement {
 			// Mark overlapping paragraphs as consumed
 			if result.Paragraphs != nil {
 				for j, para := range result.Paragraphs.Paragraphs {
-					if bboxOverlaps(heading.BBox, para.BBox) {
+					if bboxOverlaps(heading.BBox, paragraphPageBBox(para)) {
 						consumedParaIndices[j] = true
 					}
 				}
@@ -435,7 +435,7 @@ func (a *Analyzer) buildElementTree(result *AnalysisResult) []LayoutElement {
 			// Mark overlapping paragraphs as consumed
 			if result.Paragraphs != nil {
 				for j, para := range result.Paragraphs.Paragraphs {
-					if bboxOverlaps(list.BBox, para.BBox) {
+					if bboxOverlaps(list.BBox, paragraphPageBBox(para)) {
 						consumedParaIndices[j] = true
 					}
 				}
@@ -476,10 +476,30 @@ func (a *Analyzer) buildElementTree(result *AnalysisResult) []LayoutElement {
 // getListText extracts all text from a list by concatenating item prefixes and text.
 func getListText(list *List) string {
 	var text string
-	for _, item := range list.Items {
-		text += item.Prefix + " " + item.Text + "\n"
+	var walk func(items []ListItem)
+	walk = func(items []ListItem) {
+		for _, item := range items {
+			text += item.Prefix + " " + item.Text + "\n"
+			walk(item.Children) // nested items are part of the list's text
+		}
 	}
+	walk(list.Items)
 	return text
+}
+
+// paragraphPageBBox returns a paragraph's bounding box in page coordinates. Paragraphs
+// that come from the reading-order analysis carry line boxes whose X is relative to
+// their column; headings and lists are in page coordinates, so overlap tests must use
+// the fragments' own positions.
+func paragraphPageBBox(para Paragraph) model.BBox {
+	var frags []text.TextFragment
+	for _, line := range para.Lines {
+		frags = append(frags, line.Fragments...)
+	}
+	if len(frags) == 0 {
+		return para.BBox
+	}
+	return fragmentsBBox(frags)
 }
 
 // bboxOverlaps reports whether two bounding boxes overlap significantly
